@@ -232,9 +232,12 @@ package oci
 //@   requires [wf] resolverRI(tagResolver) && fn != nil
 //@   callee fn TagsPageCB
 //@   loop 0 invariant [objects] tagMap != nil && alive(tagMap)
-//@   loop 0 invariant [C15:collected-are-tags-after-last] forall i int :: 0 <= i && i < len(tags) ==> tags[i] in $visited && isTagRef(tagMap, tags[i]) && (last == "" || !(tags[i] <= last))
+//@   loop 0 invariant [C15:collected-were-visited] forall i int :: 0 <= i && i < len(tags) ==> tags[i] in $visited
+//@   loop 0 invariant [C15:collected-are-tags] forall i int :: 0 <= i && i < len(tags) ==> isTagRef(tagMap, tags[i])
+//@   loop 0 invariant [C15:collected-are-after-last] forall i int :: 0 <= i && i < len(tags) ==> last == "" || !(tags[i] <= last)
 //@   loop 0 invariant [C15:every-visited-tag-after-last-collected] forall r string :: r in $visited && isTagRef(tagMap, r) && (last == "" || !(r <= last)) ==> 0 <= ltPos(r) && ltPos(r) < len(tags) && tags[ltPos(r)] == r
 //@   loop 0 backedge set ltPos($key) = len(tags)
-//@   call fn requires [C15:only-tags-after-last] forall i int :: 0 <= i && i < len(args.tags) ==> isTagRef(tagMap, args.tags[i]) && (last == "" || !(args.tags[i] <= last))
-//@   call fn requires [C15:every-tag-after-last-listed] forall r string :: isTagRef(tagMap, r) && (last == "" || !(r <= last)) ==> inStrs(args.tags, r)
+//@   call Sort requires [C15:only-tags-after-last] forall i int :: 0 <= i && i < len(args.x) ==> isTagRef(tagMap, args.x[i]) && (last == "" || !(args.x[i] <= last))
+//@   call Sort requires [C15:every-tag-after-last-collected] args.x == tags && (forall r string :: isTagRef(tagMap, r) && (last == "" || !(r <= last)) ==> 0 <= ltPos(r) && ltPos(r) < len(tags) && tags[ltPos(r)] == r)
+//@   call fn requires [C15:page-is-the-whole-sorted-collection] args.tags == tags
 //@   call fn requires [C15:sorted] forall i, j int :: 0 <= i && i <= j && j < len(args.tags) ==> args.tags[i] <= args.tags[j]
